@@ -681,7 +681,10 @@ class VQESolver:
         # save rdm frequency dictionary
         self.rdm_freq_dict = qb_freq_dict
 
-        return (rdm1_np_a, rdm1_np_b), (rdm2_np_a, rdm2_np_ba, rdm2_np_b)
+        # The arrays were allocated with the larger of the two active spaces: return blocks of the size of each spin
+        na, nb = self.molecule.n_active_mos
+        return (rdm1_np_a[:na, :na], rdm1_np_b[:nb, :nb]), \
+               (rdm2_np_a[:na, :na, :na, :na], rdm2_np_ba[:na, :na, :nb, :nb], rdm2_np_b[:nb, :nb, :nb, :nb])
 
     def _default_optimizer(self, func, var_params):
         """Function used as a default optimizer for VQE when user does not
